@@ -10,24 +10,34 @@ theorem evalAtom_mono {o o' : Opts} (h : o ≤ o') (env : Env) (a : OptAtom) :
   | enabled e => exact h.1 _
   | inconclusive => exact h.2
 
-/-- guards are positive in the options: enabling more never disables a site -/
-theorem eval_mono {o o' : Opts} (h : o ≤ o') (env : Env) (f : Formula) :
+/-- guards in the positive fragment are monotone in the options: enabling more never disables a site.  (False for formulas
+with `nopt`: `eval` of `nopt a` flips when `a` is enabled.) -/
+theorem eval_mono {o o' : Opts} (h : o ≤ o') (env : Env) (f : Formula) (hp : f.positive = true) :
     eval o env f = true → eval o' env f = true := by
   induction f with
   | tt => intro _; rfl
   | ff => intro h; exact h
   | opt a => exact evalAtom_mono h env a
+  | nopt a => cases hp
   | lit k p => intro h; exact h
   | and a b iha ihb =>
+    simp only [Formula.positive, Bool.and_eq_true] at hp
     intro hh
     simp only [eval, Bool.and_eq_true] at hh ⊢
-    exact ⟨iha hh.1, ihb hh.2⟩
+    exact ⟨iha hp.1 hh.1, ihb hp.2 hh.2⟩
   | or a b iha ihb =>
+    simp only [Formula.positive, Bool.and_eq_true] at hp
     intro hh
     simp only [eval, Bool.or_eq_true] at hh ⊢
     cases hh with
-    | inl h1 => exact Or.inl (iha h1)
-    | inr h2 => exact Or.inr (ihb h2)
+    | inl h1 => exact Or.inl (iha hp.1 h1)
+    | inr h2 => exact Or.inr (ihb hp.2 h2)
+
+/-- the hypothesis cannot be dropped -/
+theorem eval_not_mono_nopt : ¬ (∀ (f : Formula) (o o' : Opts) (env : Env), o ≤ o' → eval o env f = true → eval o' env f = true) := by
+  intro h
+  have := h (.nopt .inconclusive) ⟨fun _ => false, false⟩ ⟨fun _ => true, true⟩ env0 ⟨fun _ hs => by cases hs, fun hi => by cases hi⟩ rfl
+  cases this
 
 theorem evalDnf_append (o : Opts) (env : Env) (xs ys : List Conj) :
     evalDnf o env (xs ++ ys) = (evalDnf o env xs || evalDnf o env ys) := by
@@ -56,6 +66,7 @@ theorem eval_dnf (o : Opts) (env : Env) (f : Formula) : eval o env f = evalDnf o
   | tt => simp [eval, dnf, evalDnf]
   | ff => simp [eval, dnf, evalDnf]
   | opt a => simp [eval, dnf, evalDnf, evalLit]
+  | nopt a => simp [eval, dnf, evalDnf, evalLit]
   | lit k p => simp [eval, dnf, evalDnf, evalLit]
   | and a b iha ihb => simp only [eval, dnf, evalDnf_product, iha, ihb]
   | or a b iha ihb => simp only [eval, dnf, evalDnf_append, iha, ihb]
@@ -73,6 +84,7 @@ theorem hasOpt_mem {c : Conj} {a : OptAtom} (h : hasOpt c a = true) : Literal.op
   obtain ⟨l, hl, hb⟩ := h
   cases l with
   | lit k p => cases hb
+  | nopt b => cases hb
   | opt b => rw [← OptAtom.beq_eq hb]; exact hl
 
 theorem hasLit_mem {c : Conj} {k : Nat} {p : Bool} (h : hasLit c k p = true) : Literal.lit k p ∈ c := by
@@ -80,6 +92,7 @@ theorem hasLit_mem {c : Conj} {k : Nat} {p : Bool} (h : hasLit c k p = true) : L
   obtain ⟨l, hl, hb⟩ := h
   cases l with
   | opt b => cases hb
+  | nopt b => cases hb
   | lit k' p' =>
     simp only [Bool.and_eq_true, beq_iff_eq] at hb
     rw [← hb.1, ← hb.2]; exact hl
@@ -90,6 +103,15 @@ theorem dead_sound {D : Nat} {env : Env} (hD : defaultsHold D env) (o : Opts) (c
   obtain ⟨l, hl, hcase⟩ := hd
   cases l with
   | opt a => cases hcase
+  | nopt a =>
+    rw [Bool.eq_false_iff]
+    intro hall
+    rw [List.all_eq_true] at hall
+    have h1 := hall _ hl
+    have h2 := hall _ (hasOpt_mem hcase)
+    simp only [evalLit] at h1 h2
+    rw [h2] at h1
+    cases h1
   | lit k p =>
     simp only [Bool.or_eq_true, Bool.and_eq_true, decide_eq_true_eq] at hcase
     rw [Bool.eq_false_iff]
@@ -170,6 +192,13 @@ theorem possible_complete {D : Nat} {env : Env} (hD : defaultsHold D env) (f : F
       cases e with
       | sym k => rfl
       | const s => simpa [evalLit, evalAtom, SevExpr.eval] using hv
+  | nopt a =>
+    cases a with
+    | inconclusive => simpa [evalLit, evalAtom] using hv
+    | enabled e =>
+      cases e with
+      | sym k => rfl
+      | const s => simpa [evalLit, evalAtom, SevExpr.eval] using hv
 
 /-! ### lifting the per-row checks to the statements of the property -/
 
@@ -211,6 +240,36 @@ theorem incOk_sound {D : Nat} {r : Row} (h : r.incOk D = true) {env : Env} (hD :
   cases h with
   | inl hn => exact absurd hc hn
   | inr he => exact entails_sound he hD o hm
+
+theorem hasNopt_false {c : Conj} (h : hasNopt c = false) {l : Literal} (hl : l ∈ c) : ∀ a, l ≠ .nopt a := by
+  intro a heq
+  subst heq
+  have : hasNopt c = true := by
+    simp only [hasNopt, List.any_eq_true]
+    exact ⟨_, hl, rfl⟩
+  rw [h] at this; cases this
+
+/-- a row whose guard has no live conjunction with a disabled-option test is monotone in the options -/
+theorem posOk_sound {D : Nat} {r : Row} (h : r.posOk D = true) {env : Env} (hD : defaultsHold D env) {o o' : Opts} (hle : o ≤ o')
+    (hm : mayReport r o env = true) : mayReport r o' env = true := by
+  simp only [mayReport] at hm ⊢
+  rw [eval_dnf] at hm ⊢
+  simp only [evalDnf, List.any_eq_true] at hm ⊢
+  obtain ⟨c, hc, hall⟩ := hm
+  refine ⟨c, hc, ?_⟩
+  simp only [Row.posOk, List.all_eq_true] at h
+  have hc' := h c hc
+  simp only [Bool.or_eq_true, Bool.not_eq_true'] at hc'
+  cases hc' with
+  | inl hdead => rw [dead_sound hD o c hdead] at hall; cases hall
+  | inr hnn =>
+    rw [List.all_eq_true] at hall ⊢
+    intro l hl
+    have hv := hall l hl
+    cases l with
+    | lit k p => exact hv
+    | opt a => exact evalAtom_mono hle env a hv
+    | nopt a => exact absurd rfl (hasNopt_false hnn hl a)
 
 theorem defaultsHold_env0 (D : Nat) : defaultsHold D env0 := fun _ _ => rfl
 
